@@ -201,7 +201,7 @@ theorem loadHistory_firstStore (rn : String) (cs : List Node) (hflat : noNested 
   have hchk : checkStore (some (firstStore w)) = .ok () := by
     simp [checkStore, firstStore, HistStore.add, checkChain, hstate, pure, Except.pure, bind, Except.bind]
   have hg : loadGens (firstStore w) = [⟨k, w.gen⟩] := by
-    have := MhlProps.C06.loadGens_add {} w k hparse hstate (by simp [loadGens])
+    have := MhlProps.C06.loadGens_add_lt {} w k hparse hstate (by simp [loadGens])
     rw [firstStore, this]
     rfl
   simp only [Node.hist, hchk, bind, Except.bind, pure, Except.pure, buildHist, hg]
